@@ -40,6 +40,7 @@ REASON = {
     'C13-input-field-refs-skipped-when-resolved': 'reported, but only as a broken correspondence on a history of loads; no single load shows it',
     'C09-subscription-keeps-raw-vars-r9': 'the directive sits in the payload of a subscription: the histories of C19 subscribe with a defaulted @include variable and report it',
     'C18-depth-restored-plus-one-r9': 'as above (10001 sibling containers: the reader cases of C03)',
+    'C19-sends-outside-lock-uncopied-r9': 'needs an interleaving: C20',
     'C10-resort-clears-badargs': 'patch no longer applies after fix e474ae4 rewrote the block; the mechanism is covered by C11-badargs-* and C10-badargs-*',
     'C16-validate-only-touched': 'patch no longer applies after the validation loop was changed by fix commits',
     'C20-deliver-after-unlock': 'patch no longer applies after fix ad6edfc; same mechanism as C20-send-outside-lock / C20-deliver-from-copy (reported)',
